@@ -27,40 +27,50 @@ FUNCTIONS = ['pymeeus/Moon.py:PERIODIC_TERMS_LR_TABLE', 'pymeeus/Moon.py:PERIODI
              'pymeeus/Angle.py:Angle.dms2deg', 'pymeeus/Angle.py:Angle.reduce_dms', 'pymeeus/Angle.py:Angle.__add__',
              'pymeeus/Angle.py:Angle.__sub__', 'pymeeus/Angle.py:Angle.__rsub__', 'pymeeus/Angle.py:Angle.__neg__',
              'pymeeus/Coordinates.py:ecliptical2equatorial', 'pymeeus/Epoch.py:Epoch.get_full_date',
-             'pymeeus/Epoch.py:Epoch.get_doy', 'pymeeus/Epoch.py:Epoch.year']
+             'pymeeus/Epoch.py:Epoch.get_doy', 'pymeeus/Epoch.py:Epoch.get_date', 'pymeeus/Epoch.py:Epoch.is_leap',
+             'pymeeus/Coordinates.py:nutation_longitude', 'pymeeus/Coordinates.py:nutation_obliquity',
+             'pymeeus/Coordinates.py:mean_obliquity', 'pymeeus/Coordinates.py:true_obliquity',
+             'pymeeus/Sun.py:Sun.apparent_rightascension_declination_coarse']
 
 MANIFEST = dict(
     text=("PARTIAL. Lean 4 theorems (Props/C15.lean) about the real-number model of pymeeus/Moon.py whose tables "
           "47.A/47.B and all 450 periodic terms of the finders are regenerated from the source by tools/gen_moon.py "
-          "on every run: parallax = asin(6378.14/distance) with the argument in (0,1) because the amplitude sum of "
-          "table 47.A keeps the distance above 355 000 km; illuminated fraction in [0,1]; for the four finders and "
-          "every target string: the lunation count k is monotone in the query and skips no integer, |periodic "
+          "on every run, composed with the calendar models of C01/C16 so that the four finders are functions of the "
+          "query JDE: parallax = asin(6378.14/distance) with the argument in (0,1) because the amplitude sum of "
+          "table 47.A keeps the distance above 355 000 km; illuminated fraction in [0,1]; mean node / perigee "
+          "polynomials advance at -1934.136 / +4069.014 deg per century within 0.29 / 1.42; for the four finders "
+          "and every target string: the count k is monotone in the fractional year and skips no integer, |periodic "
           "correction| <= the sum of the generated amplitudes, consecutive results are one mean period apart within "
-          "twice that sum and strictly increasing, the result is within half a period plus that sum of the mean "
-          "instant selected by the fractional year; any other target string raises ValueError; the mean node / perigee polynomials advance at -1934.136 / +4069.014 deg per century within 0.29 / 1.42 deg per century. NOT proved (no "
-          "certified interval arithmetic for long trigonometric sums; triangle-inequality bounds are 355 000-415 000 "
-          "km and 6.2 deg): distance 356 000-407 000 km, |latitude| <= 5.35 deg, longitude rate, fraction vs "
-          "geometry, the secular rates after the Angle reduction and of the true node, agreement of the finders with the position theory, the 1.6-month clause in "
-          "calendar terms. These clauses are evaluated on the implementation only (predicates (I)), sweeping every "
-          "calendar day of sample years of both calendars incl. 29 February of Julian century years. The model is "
-          "tied to /repo by the bit-exact binary64 run."),
+          "twice that sum and strictly increasing, any other target string raises ValueError; in terms of the query "
+          "JDE (years -2000..4000): results never move backwards for queries of one calendar year or at least 1/365 "
+          "day apart, and result - query lies in an explicit window of days (P/2 + amplitude sum + the calendar step "
+          "between the fractional year and the JDE: offset at 2000, 0.0066 d per Gregorian year, the 10 days of "
+          "1582), e.g. at most 58.9 d for 'last'. Two clauses are FALSE of the current code and proved so / listed: "
+          "'never backwards' (counterexample theorem at 1727-12-31 23:58 / 1728-01-01 00:00, node finder) and "
+          "'within 1.6 months' (last quarter, full moon, descending node in late years). NOT proved (no certified "
+          "interval arithmetic for long trigonometric sums; triangle-inequality bounds are 355 000-415 000 km and "
+          "6.1 deg): distance 356 000-407 000 km, |latitude| <= 5.35 deg, longitude rate, fraction vs geometry, the "
+          "secular rates after the Angle reduction and of the true node, agreement of the finders with the position "
+          "theory. These clauses are evaluated on the implementation only (predicates (I)), sweeping every calendar "
+          "day of sample years of both calendars incl. 29 February of Julian century years and the minutes around "
+          "every year end. The model is tied to /repo by the bit-exact binary64 run of the whole chain from the JDE."),
     note=("Trusted: Lean kernel, Mathlib, axioms propext/Classical.choice/Quot.sound; the hand-written evaluators and "
-          "control flow of lean/templates/Moon.lean and the translator tools/gen_moon.py (both validated bit for bit "
-          "against CPython on every run); the finders' fractional year (Epoch.get_date/is_leap/get_doy, property C16) "
-          "enters the finder models as an input computed by the implementation; nutation/obliquity enter the "
-          "apparent-position models as inputs; Epoch(jde) is the identity in the real model (C02). Idealisation "
-          "binary64 -> real not verified. Known finding: last-quarter (from about year 2550) and full-moon (from "
-          "about 3900) results lie more than 1.6 synodic months after the query."),
+          "control flow of lean/templates/Moon.lean, MoonYear.lean and the translator tools/gen_moon.py, and the "
+          "models they compose (EpochCore/EpochCal calendar functions, Vsop/SunEarth nutation, obliquity and coarse "
+          "Sun), all validated bit for bit against CPython on every run from the query JDE alone; Epoch(jde) is the "
+          "identity in the real model (C02); the real-model finders take a rational JDE (every binary64 is one). "
+          "Idealisation binary64 -> real not verified. Known findings: last-quarter (from about year 2500), full-moon "
+          "(from about 3700) and descending-node (from about 3900) results lie more than 1.6 synodic months after "
+          "the query; the node finder moves 27 days backwards between 1727-12-31 23:57:43 and 1728-01-01 00:01:39."),
     technique="Lean 4 proof over a generated table/term model + bit-exact model/implementation correspondence + predicates on the implementation",
     ref='6 C15')
 
 TRUSTED = [
     'tools/gen_moon.py (ast translator of the tables and the 450 periodic terms) and the hand-written evaluators of '
-    'lean/templates/Moon.lean: validated by the bit-exact correspondence run below',
-    'the fractional year of the finders (y + doy/days_in_year from Epoch.get_date, Epoch.is_leap, Epoch.get_doy) is '
-    'computed by the implementation and passed to the finder models as an input (those functions belong to C16/C01)',
-    'nutation_longitude / true_obliquity (C08) and the coarse Sun position enter apparent_* / position_bright_limb '
-    'models as inputs computed by the implementation',
+    'lean/templates/Moon.lean, MoonYear.lean: validated by the bit-exact correspondence run below',
+    'no value computed by the implementation enters the models any more: the finders are tied from the query JDE '
+    '(get_date, is_leap, get_doy, fractional year, count, series, Epoch(jde)), the apparent positions and the bright '
+    'limb from the JDE (nutation_longitude, true_obliquity, coarse Sun are the models of templates Vsop / SunEarth)',
     'the predicates use the library\'s own Sun position (Sun.apparent_geocentric_position, '
     'Sun.geometric_geocentric_position) as the property prescribes',
 ]
@@ -90,7 +100,7 @@ FINDERS = {
 SPACING = {'new': (29.1, 30.0), 'first': (29.1, 30.0), 'full': (29.1, 30.0), 'last': (29.1, 30.0),
            'perigee': (24.5, 28.7), 'apogee': (26.9, 28.0), 'ascending': (26.9, 27.6), 'descending': (26.9, 27.6),
            'northern': (27.0, 27.7), 'southern': (27.0, 27.7)}
-DRIVER_FN = {'phase': 'moon_phase', 'apsis': 'moon_apsis', 'nodes': 'moon_nodes', 'decl': 'moon_decl'}
+DRIVER_FN = {'phase': 'moon_phase_j', 'apsis': 'moon_apsis_j', 'nodes': 'moon_nodes_j', 'decl': 'moon_decl_j'}
 BAD_TARGETS = ['', ' ', 'New', 'NEW', 'new ', ' new', 'newmoon', 'n', 'full moon', 'third', 'First', 'Full', 'LAST',
                'Perigee', 'apogee ', 'peri', 'Ascending', 'descend', 'north', 'Northern', 'south', 'southern ',
                'nеw']    # the last one has a Cyrillic 'е'
@@ -265,11 +275,6 @@ def tie_position(ctx, j, klass, full=True):
     ctx.case('moon_illum', [j], run_impl(lambda: Moon.illuminated_fraction_disk(e)), q=None)
     if not full:
         return
-    try:
-        dpsi = L['nutation_longitude'](e)._deg
-        eps = L['true_obliquity'](e)._deg
-    except Exception:  # noqa
-        return
 
     def ae():
         a, b, c, d = Moon.apparent_ecliptical_pos(e)
@@ -278,15 +283,10 @@ def tie_position(ctx, j, klass, full=True):
     def aq():
         a, b, c, d = Moon.apparent_equatorial_pos(e)
         return (a._deg, b._deg, c, d._deg)
-    ctx.case('moon_app_ecl', [j, dpsi], run_impl(ae), q=None)
-    ctx.case('moon_app_equ', [j, dpsi, eps], run_impl(aq), q=None)
-    try:
-        a0, d0, r0 = Sun.apparent_rightascension_declination_coarse(e)
-        a, d, r, pp = Moon.apparent_equatorial_pos(e)
-    except Exception:  # noqa
-        return
-    ctx.case('moon_bright_limb', [a0._deg, d0._deg, a._deg, d._deg],
-             run_impl(lambda: Moon.position_bright_limb(e)._deg), q=None)
+    # nutation in longitude, true obliquity and the coarse Sun are inside the model (templates Vsop / SunEarth)
+    ctx.case('moon_app_ecl_j', [j], run_impl(ae), q=None)
+    ctx.case('moon_app_equ_j', [j], run_impl(aq), q=None)
+    ctx.case('moon_bright_limb_j', [j], run_impl(lambda: Moon.position_bright_limb(e)._deg), q=None)
 
 
 # ------------------------------------------------------------------ (I) finder clauses
@@ -359,30 +359,24 @@ def check_pair(ctx, finder, target, q1, r1, q2, r2, klass):
     """Order and spacing for two queries q1 < q2 (at most one period apart) with results r1, r2."""
     inp = [q1, q2, finder, target]
     ctx.predicate('never_backwards', r2 >= r1, inp, {'r1': r1, 'r2': r2}, klass)
-    if r2 != r1:
+    if r2 > r1:
         lo, hi = SPACING[target]
         ctx.predicate('consecutive_one_period', lo <= r2 - r1 <= hi, inp, {'r1': r1, 'r2': r2, 'spacing': r2 - r1},
                       klass + '/' + target)
 
 
 def tie_finder(ctx, finder, target, q, klass):
+    """(S) the whole chain from the query JDE: date, leap rule, day of year, fractional year, count, series,
+    Epoch(jde) renormalisation."""
     e = ep(q)
-    try:
-        yr = frac_year(e)
-    except Exception:  # noqa
-        return
-    ctx.case(DRIVER_FN[finder], [yr, target], finder_out(finder, target, e), q=None, klass=DRIVER_FN[finder] + '/' + klass)
+    ctx.case(DRIVER_FN[finder], [float(q), target], finder_out(finder, target, e), q=None,
+             klass=DRIVER_FN[finder] + '/' + klass)
 
 
 def check_bad_targets(ctx, q):
     L = lib()
     Moon = L['Moon']
     e = ep(q)
-    try:
-        yr = frac_year(e)
-    except Exception as ex:  # noqa
-        ctx.predicate('finder_total', False, [q, 'phase', 'new'], 'fractional year: ' + repr(ex), 'bad_target')
-        yr = None
     fns = {'phase': lambda t: Moon.moon_phase(e, t), 'apsis': lambda t: Moon.moon_perigee_apogee(e, t),
            'nodes': lambda t: Moon.moon_passage_nodes(e, t), 'decl': lambda t: Moon.moon_maximum_declination(e, t)}
     for finder, fn in fns.items():
@@ -392,8 +386,8 @@ def check_bad_targets(ctx, q):
                 continue
             out = run_impl(lambda: fn(t) and 0)
             ctx.predicate('bad_target_refused', out == 'E:ValueError', [q, finder, t], out, 'bad_target')
-            if '_' not in t and yr is not None:
-                ctx.case(DRIVER_FN[finder], [yr, t], out, q=None, klass=DRIVER_FN[finder] + '/bad_target')
+            if '_' not in t:
+                ctx.case(DRIVER_FN[finder], [float(q), t], out, q=None, klass=DRIVER_FN[finder] + '/bad_target')
         for t in (None, 0, 1.5, b'new', ['new']):
             out = run_impl(lambda: fn(t) and 0)
             ctx.predicate('non_string_target_refused', out == 'E:TypeError', [q, finder, repr(t)], out, 'bad_target')
@@ -434,6 +428,35 @@ def sweep_year(ctx, y, klass, pending, frac=0.0, tie_every=1):
                 prev = (q, r)
                 if n % tie_every == 0:
                     pending.append((finder, target, q, klass))
+
+
+YEAR_END_OFFSETS_S = (-236.0, -180.0, -137.0, -90.0, -30.0, -0.001, 0.0, 40.0, 99.0, 150.0, 236.0)
+
+
+def sweep_year_ends(ctx, ys, pending, rng):
+    """Queries a few minutes around 31 December 24h: the finders' fractional year y + doy/days is not
+    continuous there (it steps by 1/days(y+1) - 1/days(y)), so this is where the order clause is at risk."""
+    Epoch = lib()['Epoch']
+    for y in ys:
+        j2 = Epoch(y + 1, 1, 1.0)._jde
+        qs = [j2 + s_ / 86400.0 for s_ in YEAR_END_OFFSETS_S]
+        for finder, targets in FINDERS.items():
+            for target in targets:
+                prev = None
+                for q in qs:
+                    try:
+                        r, _ = call_finder(finder, target, ep(q))
+                    except Exception as ex:  # noqa
+                        ctx.predicate('finder_total', False, [q, finder, target], repr(ex), 'year_end')
+                        prev = None
+                        continue
+                    if prev is not None:
+                        check_pair(ctx, finder, target, prev[0], prev[1], q, r, 'year_end')
+                    prev = (q, r)
+        q = rng.choice(qs)
+        finder = rng.choice(list(FINDERS))
+        pending.append((finder, rng.choice(FINDERS[finder]), q, 'year_end'))
+        ctx.case('moon_fyear', [q], run_impl(lambda: frac_year(ep(q))), q=None, klass='moon_fyear/year_end')
 
 
 JULIAN_CENTURY = [100, 200, 300, 500, 600, 700, 900, 1000, 1100, 1300, 1400, 1500]
@@ -521,6 +544,16 @@ def generate(ctx, shard=0, nshards=1):
                         if r is not None:
                             check_event(ctx, finder, target, q, 'julian_century_leap_day')
                             pending.append((finder, target, q, 'julian_century_leap_day'))
+    # ---- the last / first minutes of every calendar year
+    Ep = Epoch
+    allys = list(range(-2000, 4000))
+    risky = [y for y in allys if (not Ep.is_leap(y)) and Ep.is_leap(y + 1)]   # common year followed by a leap year
+    base = set(risky) | {h + d for h in hot_years for d in (-1, 0)} | {1581, 1582, -2000, 3999}
+    if full:
+        base |= set(allys)
+    else:
+        base |= set(y for y in allys if (y + base_seed) % 7 == 0)
+    sweep_year_ends(ctx, sorted(base)[shard::nw], pending, rng)
     # ---- random single queries over the whole range (events checked), dense near the ends
     for _ in range(ctx.n(1200, 30000) // nw):
         r = rng.random()
